@@ -484,6 +484,53 @@ fn format_function(
 // * =RC+R1C1
 // * =A1+B1
 
+/// How tightly a node binds when it is the operand of an operator, following the grammar of
+/// the parser: comparison < & < + - < * / < ^ < postfix % < prefix sign < everything else.
+fn operand_precedence(node: &Node) -> u8 {
+    match node {
+        Node::CompareKind { .. } => 1,
+        Node::OpConcatenateKind { .. } => 2,
+        Node::OpSumKind { .. } => 3,
+        Node::OpProductKind { .. } => 4,
+        Node::OpPowerKind { .. } => 5,
+        Node::UnaryKind {
+            kind: OpUnary::Percentage,
+            ..
+        } => 6,
+        Node::UnaryKind {
+            kind: OpUnary::Minus,
+            ..
+        } => 7,
+        _ => 9,
+    }
+}
+
+/// Prints an operand, in parentheses if it binds less tightly than `min_precedence`.
+/// All binary operators are left associative: a right operand needs one level more.
+fn stringify_operand(
+    node: &Node,
+    min_precedence: u8,
+    context: Option<&CellReferenceRC>,
+    displace_data: &DisplaceData,
+    export_to_excel: bool,
+    locale: &Locale,
+    language: &Language,
+) -> String {
+    let text = stringify(
+        node,
+        context,
+        displace_data,
+        export_to_excel,
+        locale,
+        language,
+    );
+    if operand_precedence(node) < min_precedence {
+        format!("({text})")
+    } else {
+        text
+    }
+}
+
 fn stringify(
     node: &Node,
     context: Option<&CellReferenceRC>,
@@ -669,62 +716,39 @@ fn stringify(
                 language
             )
         ),
-        OpConcatenateKind { left, right } => format!(
-            "{}&{}",
-            stringify(
-                left,
-                context,
-                displace_data,
-                export_to_excel,
-                locale,
-                language
-            ),
-            stringify(
-                right,
-                context,
-                displace_data,
-                export_to_excel,
-                locale,
-                language
-            )
-        ),
-        CompareKind { kind, left, right } => format!(
-            "{}{}{}",
-            stringify(
-                left,
-                context,
-                displace_data,
-                export_to_excel,
-                locale,
-                language
-            ),
-            kind,
-            stringify(
-                right,
-                context,
-                displace_data,
-                export_to_excel,
-                locale,
-                language
-            )
-        ),
+        OpConcatenateKind { left, right } => {
+            let operand = |child: &Node, min_precedence: u8| {
+                stringify_operand(
+                    child,
+                    min_precedence,
+                    context,
+                    displace_data,
+                    export_to_excel,
+                    locale,
+                    language,
+                )
+            };
+            format!("{}&{}", operand(left, 2), operand(right, 3))
+        }
+        CompareKind { kind, left, right } => {
+            let operand = |child: &Node, min_precedence: u8| {
+                stringify_operand(
+                    child,
+                    min_precedence,
+                    context,
+                    displace_data,
+                    export_to_excel,
+                    locale,
+                    language,
+                )
+            };
+            format!("{}{}{}", operand(left, 1), kind, operand(right, 2))
+        }
         OpSumKind { kind, left, right } => {
-            // CompareKind has lower precedence than +/-, so wrap it to preserve semantics
-            let left_str = if matches!(**left, CompareKind { .. }) {
-                format!(
-                    "({})",
-                    stringify(
-                        left,
-                        context,
-                        displace_data,
-                        export_to_excel,
-                        locale,
-                        language
-                    )
-                )
-            } else {
-                stringify(
-                    left,
+            let operand = |child: &Node, min_precedence: u8| {
+                stringify_operand(
+                    child,
+                    min_precedence,
                     context,
                     displace_data,
                     export_to_excel,
@@ -732,173 +756,42 @@ fn stringify(
                     language,
                 )
             };
-            // if kind is minus then we need parentheses in the right side if they are OpSumKind or CompareKind
-            let right_str = if (matches!(kind, OpSum::Minus) && matches!(**right, OpSumKind { .. }))
-                | matches!(**right, CompareKind { .. })
-            {
-                format!(
-                    "({})",
-                    stringify(
-                        right,
-                        context,
-                        displace_data,
-                        export_to_excel,
-                        locale,
-                        language
-                    )
-                )
-            } else {
-                stringify(
-                    right,
-                    context,
-                    displace_data,
-                    export_to_excel,
-                    locale,
-                    language,
-                )
-            };
-
-            format!("{left_str}{kind}{right_str}")
+            // a sum on the right of a '+' is printed without parentheses: 1+(3+5) -> 1+3+5
+            let right_precedence = if matches!(kind, OpSum::Add) { 3 } else { 4 };
+            format!(
+                "{}{}{}",
+                operand(left, 3),
+                kind,
+                operand(right, right_precedence)
+            )
         }
         OpProductKind { kind, left, right } => {
-            let x = match **left {
-                OpSumKind { .. } | CompareKind { .. } => format!(
-                    "({})",
-                    stringify(
-                        left,
-                        context,
-                        displace_data,
-                        export_to_excel,
-                        locale,
-                        language
-                    )
-                ),
-                _ => stringify(
-                    left,
+            let operand = |child: &Node, min_precedence: u8| {
+                stringify_operand(
+                    child,
+                    min_precedence,
                     context,
                     displace_data,
                     export_to_excel,
                     locale,
                     language,
-                ),
+                )
             };
-            let y = match **right {
-                OpSumKind { .. } | CompareKind { .. } | OpProductKind { .. } => format!(
-                    "({})",
-                    stringify(
-                        right,
-                        context,
-                        displace_data,
-                        export_to_excel,
-                        locale,
-                        language
-                    )
-                ),
-                _ => stringify(
-                    right,
-                    context,
-                    displace_data,
-                    export_to_excel,
-                    locale,
-                    language,
-                ),
-            };
-            format!("{x}{kind}{y}")
+            format!("{}{}{}", operand(left, 4), kind, operand(right, 5))
         }
         OpPowerKind { left, right } => {
-            let x = match **left {
-                BooleanKind(_)
-                | NumberKind(_)
-                | UnaryKind { .. }
-                | StringKind(_)
-                | ReferenceKind { .. }
-                | RangeKind { .. }
-                | WrongReferenceKind { .. }
-                | DefinedNameKind(_)
-                | TableNameKind(_)
-                | NamedVariableKind { .. }
-                | WrongRangeKind { .. } => stringify(
-                    left,
+            let operand = |child: &Node, min_precedence: u8| {
+                stringify_operand(
+                    child,
+                    min_precedence,
                     context,
                     displace_data,
                     export_to_excel,
                     locale,
                     language,
-                ),
-                OpRangeKind { .. }
-                | OpConcatenateKind { .. }
-                | OpProductKind { .. }
-                | OpPowerKind { .. }
-                | FunctionKind { .. }
-                | NamedFunctionKind { .. }
-                | LambdaDefKind { .. }
-                | LambdaCallKind { .. }
-                | ArrayKind(_)
-                | ErrorKind(_)
-                | ParseErrorKind { .. }
-                | OpSumKind { .. }
-                | CompareKind { .. }
-                | ImplicitIntersection { .. }
-                | SpillRangeOperator { .. }
-                | EmptyArgKind => format!(
-                    "({})",
-                    stringify(
-                        left,
-                        context,
-                        displace_data,
-                        export_to_excel,
-                        locale,
-                        language
-                    )
-                ),
+                )
             };
-            let y = match **right {
-                BooleanKind(_)
-                | NumberKind(_)
-                | StringKind(_)
-                | ReferenceKind { .. }
-                | RangeKind { .. }
-                | WrongReferenceKind { .. }
-                | DefinedNameKind(_)
-                | TableNameKind(_)
-                | NamedVariableKind { .. }
-                | WrongRangeKind { .. } => stringify(
-                    right,
-                    context,
-                    displace_data,
-                    export_to_excel,
-                    locale,
-                    language,
-                ),
-                OpRangeKind { .. }
-                | OpConcatenateKind { .. }
-                | OpProductKind { .. }
-                | OpPowerKind { .. }
-                | FunctionKind { .. }
-                | NamedFunctionKind { .. }
-                | LambdaDefKind { .. }
-                | LambdaCallKind { .. }
-                | ArrayKind(_)
-                | UnaryKind { .. }
-                | ErrorKind(_)
-                | ParseErrorKind { .. }
-                | OpSumKind { .. }
-                | CompareKind { .. }
-                | ImplicitIntersection { .. }
-                | SpillRangeOperator { .. }
-                | EmptyArgKind => format!(
-                    "({})",
-                    stringify(
-                        right,
-                        context,
-                        displace_data,
-                        export_to_excel,
-                        locale,
-                        language
-                    )
-                ),
-            };
-            format!("{x}^{y}")
+            format!("{}^{}", operand(left, 5), operand(right, 6))
         }
         NamedFunctionKind { name, args, id: _ } => format_function(
             &name.to_lowercase(),
@@ -959,74 +852,32 @@ fn stringify(
         DefinedNameKind((name, ..)) => name.to_string(),
         NamedVariableKind { name, id: _ } => name.to_string(),
         UnaryKind { kind, right } => match kind {
-            OpUnary::Minus => {
-                let needs_parentheses = match **right {
-                    BooleanKind(_)
-                    | NumberKind(_)
-                    | StringKind(_)
-                    | ReferenceKind { .. }
-                    | RangeKind { .. }
-                    | WrongReferenceKind { .. }
-                    | WrongRangeKind { .. }
-                    | OpRangeKind { .. }
-                    | OpConcatenateKind { .. }
-                    | OpProductKind { .. }
-                    | FunctionKind { .. }
-                    | NamedFunctionKind { .. }
-                    | LambdaDefKind { .. }
-                    | LambdaCallKind { .. }
-                    | ArrayKind(_)
-                    | DefinedNameKind(_)
-                    | TableNameKind(_)
-                    | NamedVariableKind { .. }
-                    | ImplicitIntersection { .. }
-                    | SpillRangeOperator { .. }
-                    | CompareKind { .. }
-                    | ErrorKind(_)
-                    | ParseErrorKind { .. }
-                    | EmptyArgKind => false,
-
-                    OpPowerKind { .. } | OpSumKind { .. } | UnaryKind { .. } => true,
-                };
-                if needs_parentheses {
-                    format!(
-                        "-({})",
-                        stringify(
-                            right,
-                            context,
-                            displace_data,
-                            export_to_excel,
-                            locale,
-                            language
-                        )
-                    )
-                } else {
-                    format!(
-                        "-{}",
-                        stringify(
-                            right,
-                            context,
-                            displace_data,
-                            export_to_excel,
-                            locale,
-                            language
-                        )
-                    )
-                }
-            }
-            OpUnary::Percentage => {
-                format!(
-                    "{}%",
-                    stringify(
-                        right,
-                        context,
-                        displace_data,
-                        export_to_excel,
-                        locale,
-                        language
-                    )
+            // a sign is read before a following '%', and consecutive signs are folded by the
+            // parser, so every operator operand of a sign needs parentheses
+            OpUnary::Minus => format!(
+                "-{}",
+                stringify_operand(
+                    right,
+                    8,
+                    context,
+                    displace_data,
+                    export_to_excel,
+                    locale,
+                    language
                 )
-            }
+            ),
+            OpUnary::Percentage => format!(
+                "{}%",
+                stringify_operand(
+                    right,
+                    6,
+                    context,
+                    displace_data,
+                    export_to_excel,
+                    locale,
+                    language
+                )
+            ),
         },
         ErrorKind(kind) => format!("{kind}"),
         ParseErrorKind { formula, .. } => formula.to_string(),
